@@ -82,6 +82,47 @@ Section Plain.
       apply Hd. rewrite (Ea x Hx), (Ea y Hy). reflexivity.
   Qed.
 
+  (* ... in particular two blocks whose shared structures have the same LEAVES (shapes, dtypes, order) but
+     another container - kind (list / tuple / dict / Stokes class), dict keys, nesting, a leaf against a
+     singleton container: anything `shape_of` (the treedef, dict keys included) sees *)
+  Theorem ctor_rejects_other_container b td (l : list op) x y :
+    List.length l = nleaves td -> In x l -> In y l ->
+    (b = BRow /\ shape_of (out_struct x) <> shape_of (out_struct y)) \/
+    (b = BCol /\ shape_of (in_struct x) <> shape_of (in_struct y)) ->
+    mk_block b td l = Err ValueError.
+  Proof.
+    intros Hlen Hx Hy Hb. apply (ctor_rejects_mismatch b td l x y Hlen Hx Hy).
+    destruct Hb as [[-> Hd]|[-> Hd]]; [left|right]; (split; [reflexivity|]); intros E; apply Hd; now rewrite E.
+  Qed.
+
+  (* two structures are equal exactly when their treedefs and their leaves are: what the constructors compare *)
+  Lemma app_inv_same_length A (a a' b b' : list A) :
+    List.length a = List.length a' -> a ++ b = a' ++ b' -> a = a' /\ b = b'.
+  Proof.
+    revert a'. induction a as [|u a IH]; intros [|u' a'] Hl H; cbn in *; try discriminate; auto.
+    injection H as -> H. injection Hl as Hl. destruct (IH a' Hl H) as [-> ->]. auto.
+  Qed.
+  Lemma shape_of_flatten_length A (s t : pt A) :
+    shape_of s = shape_of t -> List.length (flatten s) = List.length (flatten t).
+  Proof.
+    intros H. apply (f_equal (fun u => List.length (flatten u))) in H. unfold shape_of in H.
+    now rewrite !flatten_pmap, !map_length in H.
+  Qed.
+  Lemma pt_eq_of_shape_flatten A : forall s t : pt A,
+    shape_of s = shape_of t -> flatten s = flatten t -> s = t.
+  Proof.
+    intros s. induction s as [a|k cs IH] using pt_ind'; intros [b|k' cs'] Hs Hf; cbn in Hs, Hf; try discriminate.
+    - now injection Hf as ->.
+    - injection Hs as -> Hm. f_equal.
+      revert cs' Hm Hf. induction IH as [|x xs Hx _ IHl]; intros [|y ys] Hm Hf; cbn in *; try discriminate; auto.
+      injection Hm as Hxy Hm.
+      destruct (app_inv_same_length _ _ _ _ _ (shape_of_flatten_length _ x y Hxy) Hf) as [H1 H2].
+      f_equal; auto.
+  Qed.
+  Theorem struct_eq_iff_treedef_leaves (s t : struct) :
+    s = t <-> shape_of s = shape_of t /\ flatten s = flatten t.
+  Proof. split; [intros ->; auto|intros [H1 H2]; now apply pt_eq_of_shape_flatten]. Qed.
+
   (* the remaining error kinds, as the code: operators[0] of an empty container *)
   Theorem ctor_empty b td : nleaves td = 0 -> mk_block b td (@nil op) = Err IndexError.
   Proof. intros H. unfold mk_block. cbn [List.length]. rewrite H. reflexivity. Qed.
